@@ -22,10 +22,30 @@ pub struct CheckArgs {
     pub family: Option<String>,
 }
 
+/// run the batch and hand back the merged statistics (used by the determinism self-test)
+pub fn collect(a: &CheckArgs) -> Result<Stats, String> {
+    run_batch(a).map(|x| x.0)
+}
+
 pub fn check(a: CheckArgs) -> i32 {
+    let t0 = Instant::now();
     let Some(p) = spec(&a.prop) else {
         eprintln!("simcheck: unknown property {}", a.prop);
         return 2;
+    };
+    let st = match run_batch(&a) {
+        Ok((st, _)) => st,
+        Err(e) => {
+            eprintln!("simcheck: harness error: {e}");
+            return 2;
+        }
+    };
+    finish(a, p, st, t0)
+}
+
+fn run_batch(a: &CheckArgs) -> Result<(Stats, f64), String> {
+    let Some(p) = spec(&a.prop) else {
+        return Err(format!("unknown property {}", a.prop));
     };
     let t0 = Instant::now();
     let thorough = a.tier == "thorough";
@@ -93,10 +113,13 @@ pub fn check(a: CheckArgs) -> i32 {
         let _ = h.join();
     }
     if let Some(e) = harness_err.lock().unwrap().take() {
-        eprintln!("simcheck: harness error: {e}");
-        return 2;
+        return Err(e);
     }
     let st = std::mem::take(&mut *merged.lock().unwrap());
+    Ok((st, t0.elapsed().as_secs_f64()))
+}
+
+fn finish(a: CheckArgs, p: &PropSpec, st: Stats, t0: Instant) -> i32 {
     if st.determinism_mismatch > 0 && st.violations.is_empty() {
         // the same seed and program gave two different histories in one process and no oracle
         // objected: state leaks between runs outside the simulator's control
@@ -371,6 +394,54 @@ pub fn minimise_and_persist(prop_checked: &str, v: &VioRec) -> String {
     };
     std::fs::write(&path, serde_json::to_string_pretty(&file).unwrap()).expect("write replay");
     path
+}
+
+/// Determinism self-test: the same run indices in worker processes of two different pool sizes
+/// (hence different cores, chunk interleavings and process lifetimes) must give identical
+/// histories and decision lists.
+pub fn selftest_determinism(runs: u64) -> i32 {
+    std::env::set_var("VERIF_DUMP_HASHES", "1");
+    let mut bad = 0u64;
+    let mut total = 0u64;
+    for prop in ["C01", "C04", "C05", "C09", "C11", "C12", "C13", "C17", "C19"] {
+        let mk = |workers: usize| CheckArgs { prop: prop.to_string(), tier: "quick".into(), seed: DEFAULT_SEED, workers, runs: Some(runs), budget_s: Some(600), family: None };
+        let a = match collect(&mk(16)) {
+            Ok(s) => s,
+            Err(e) => {
+                eprintln!("simcheck: harness error: {e}");
+                return 2;
+            }
+        };
+        let b = match collect(&mk(3)) {
+            Ok(s) => s,
+            Err(e) => {
+                eprintln!("simcheck: harness error: {e}");
+                return 2;
+            }
+        };
+        let ma: std::collections::BTreeMap<u64, (u64, u64)> = a.run_hashes.iter().map(|x| (x.0, (x.1, x.2))).collect();
+        let mut n = 0;
+        for (i, h, dh) in &b.run_hashes {
+            if let Some(x) = ma.get(i) {
+                n += 1;
+                if *x != (*h, *dh) {
+                    bad += 1;
+                    if bad < 5 {
+                        eprintln!("selftest-determinism: {prop} run {i}: histories differ between a 16-worker and a 3-worker batch");
+                    }
+                }
+            }
+        }
+        total += n;
+        eprintln!("selftest-determinism: {prop}: {n} runs compared across two batches, {} in-process re-runs", a.determinism_rechecked + b.determinism_rechecked);
+        bad += a.determinism_mismatch + b.determinism_mismatch;
+    }
+    println!("selftest-determinism: {total} runs compared, {bad} mismatches");
+    if bad > 0 {
+        2
+    } else {
+        0
+    }
 }
 
 pub fn replay(path: &str) -> i32 {
